@@ -253,11 +253,16 @@ def run_threaded(ctx, binary, san, seed, runs, windows, maxcalls, tag):
 # ----------------------------------------------------------------------------- vacuity guards
 
 
-def expect_violation(ctx, module, cfg, inv, why):
-    r = vlib.tlc(module, cfg, workers=4, timeout=600)
-    if inv not in r.invariant_violated:
-        raise vlib.Infra("vacuity guard: %s/%s did not violate %s" % (module, cfg, inv))
-    ctx.extra.setdefault("vacuity_guards", []).append({"cfg": cfg, "violates": inv, "states": r.distinct, "meaning": why})
+def expect_violations(ctx, guards):
+    """Each (module, cfg, invariant, meaning): TLC must find a counterexample to the invariant."""
+    def one(g):
+        module, cfg, inv, why = g
+        r = vlib.tlc(module, cfg, workers=2, timeout=900)
+        return g, r
+    for (module, cfg, inv, why), r in vlib.parallel(one, guards, workers=len(guards)):
+        if inv not in r.invariant_violated:
+            raise vlib.Infra("vacuity guard: %s/%s did not violate %s" % (module, cfg, inv))
+        ctx.extra.setdefault("vacuity_guards", []).append({"cfg": cfg, "violates": inv, "states": r.distinct, "meaning": why})
 
 
 def judge_guards(ctx, seq_lines, conc_lines):
@@ -311,28 +316,33 @@ def run(ctx):
     pool = concurrent.futures.ThreadPoolExecutor(max_workers=1)
     builds = pool.submit(lambda: (build("asan"), build("tsan")))     # compile while TLC explores
 
-    # 1. the specifications themselves
-    vlib.tlc_mc(ctx, "LogContext", "MC_LogContext.cfg", workers=8)
-    vlib.tlc_mc(ctx, "LogContextConc", "MC_LogContextConc.cfg", workers=8)
+    # 1. the specifications themselves (thorough: the small configurations with -coverage, every action
+    #    must have been taken; the larger configurations without it - coverage mode is several times slower)
+    for mod, cfg in (("LogContext", "MC_LogContext.cfg"), ("LogContextConc", "MC_LogContextConc.cfg")):
+        r = vlib.tlc_mc(ctx, mod, cfg, workers=8, coverage=thorough, timeout=1800)
+        if thorough:
+            cov = r.coverage()
+            dead = sorted(a for a, (taken, _) in cov.items() if taken == 0 and a not in ("Init", "CInit", "AObserve"))   # observers are quantified inside the invariants (GenObservers = FALSE)
+            if dead or not cov:
+                raise vlib.Infra("coverage: actions never taken in %s: %s" % (cfg, dead))
+            ctx.extra.setdefault("action_coverage", {})[cfg] = {a: t for a, (t, _) in cov.items()}
     if thorough:
         for mod, cfg in (("LogContext", "MC_LogContext_big.cfg"), ("LogContext", "MC_LogContext_d3.cfg"),
                          ("LogContextConc", "MC_LogContextConc_big.cfg"), ("LogContextConc", "MC_LogContextConc_3t.cfg"),
                          ("LogContextConc", "MC_LogContextConc_3t211.cfg")):
-            r = vlib.tlc_mc(ctx, mod, cfg, timeout=3000, coverage=True)
-            cov = r.coverage()
-            dead = sorted(a for a, (taken, _) in cov.items() if taken == 0 and a not in ("Init", "CInit"))
-            if dead:
-                raise vlib.Infra("coverage: actions never taken in %s: %s" % (cfg, dead))
-            ctx.extra.setdefault("action_coverage", {})[cfg] = {a: t for a, (t, _) in cov.items()}
+            vlib.tlc_mc(ctx, mod, cfg, timeout=3000)
     phase("model-checking")
-    expect_violation(ctx, "LogContext", "MC_LogContext_setbug.cfg", "LatestPrefixWins", "set updates only the node, not the sub-tree")
-    expect_violation(ctx, "LogContext", "MC_LogContext_inheritbug.cfg", "LatestPrefixWins", "new children inherit the root node's level")
-    expect_violation(ctx, "LogContextConc", "MC_LogContextConc_droplock.cfg", "MutualExclusion", "find_child without the lock_guard")
-    expect_violation(ctx, "LogContextConc", "MC_LogContextConc_droplock_lpw.cfg", "LPWWhenFree", "find_child without the lock_guard: a child created during a set keeps the old level")
-    expect_violation(ctx, "LogContextConc", "MC_LogContextConc_cached.cfg", "LockFreeReadOK", "object::level returns the level cached at creation")
-    expect_violation(ctx, "LogContextConc", "MC_LogContextConc_joint.cfg", "JointSequential",
-                     "NOT a defect: the strong joint reading of two lock-free reads is false by design (pre-order, node-by-node publication) and is not claimed")
-
+    expect_violations(ctx, [
+        ("LogContext", "MC_LogContext_setbug.cfg", "LatestPrefixWins", "set updates only the node, not the sub-tree"),
+        ("LogContext", "MC_LogContext_inheritbug.cfg", "LatestPrefixWins", "new children inherit the root node's level"),
+        ("LogContextConc", "MC_LogContextConc_droplock.cfg", "MutualExclusion", "find_child without the lock_guard"),
+        ("LogContextConc", "MC_LogContextConc_droplock_lpw.cfg", "LPWWhenFree",
+         "find_child without the lock_guard: a child created during a set keeps the old level"),
+        ("LogContextConc", "MC_LogContextConc_cached.cfg", "LockFreeReadOK", "object::level returns the level cached at creation"),
+        ("LogContextConc", "MC_LogContextConc_joint.cfg", "JointSequential",
+         "NOT a defect: the strong joint reading of two lock-free reads is false by design (pre-order, node-by-node "
+         "publication) and is not claimed; TLC must refute it"),
+    ])
     phase("vacuity-guards")
     # 2. operation scripts, one per generated transition
     r = vlib.tlc_mc(ctx, "LogContext", "MC_LogContextScripts.cfg", workers=4)
